@@ -378,6 +378,16 @@ def law_behaviour(cid, rnd):
         laws.append(("export_import_identity", xy, r))
         ops.append(dict(op="est", s=0))
         ops.append(dict(op="est", s=3))
+        # the digits of an imported sketch may be written in either case (outside what export produces: a refusal would be
+        # fine, a different register state is not)
+        Z_ = state()
+        hz = hex_of(Z_)
+        mixed = "".join(c.upper() if (k // 2) % 2 == 0 else c for k, c in enumerate(hz))
+        ops.append(dict(op="import", s=2, hex=hz, cls="ok")); lo = len(ops) - 1
+        ops.append(dict(op="import", s=3, hex=hz.upper(), cls="ok")); up = len(ops) - 1
+        laws.append(("may:import_ignores_digit_case", lo, up))
+        ops.append(dict(op="import", s=3, hex=mixed, cls="ok")); mx2 = len(ops) - 1
+        laws.append(("may:import_ignores_digit_case", lo, mx2))
     elif rnd.random() < 0.6:
         kind = "union"
         A2 = A + [rnd.choice(A) for _ in range(rnd.randint(0, 30))] if A else []
@@ -631,6 +641,8 @@ def judge_beh(case, out):
                         name, a, case["ops"][a]["op"], sorted(step_regs(steps[a]).items())[:8], steps[a]["res"])))
                 continue
             ra, rb = step_regs(steps[a]), step_regs(steps[b])
+            if name.startswith("may:") and steps[b]["res"] == "err":
+                continue            # refused: allowed
             if steps[a]["res"] != "ok" or steps[b]["res"] != "ok":
                 bad.append(("C20:law:%s:outcome" % name, "steps %d/%d returned %s/%s" % (a, b, steps[a]["res"], steps[b]["res"])))
             elif ra != rb:
